@@ -545,6 +545,15 @@ pub fn run(ctx: &'static Ctx) -> (&'static str, Value, Vec<&'static str>) {
         let s = format!("20240813-123330-{mid}-I");
         totality_one(ctx, &s, &mut tot);
     }
+    // every literal of the source under test as a whole name and in each dash/underscore field
+    for lit in source_dictionary() {
+        if let Ok(l) = std::str::from_utf8(lit) {
+            for s in [l.to_string(), format!("{l}-123330-014-I"), format!("20240813-{l}-014-I"), format!("20240813-123330-{l}-I"), format!("20240813-123330-014-{l}"), format!("{l}20240813_123330_V06"), format!("KDMX20240813_123330_{l}"), format!("KDMX{l}")] {
+                totality_one(ctx, &s, &mut tot);
+            }
+            tot.count("source_literal_names", 8);
+        }
+    }
     stats = stats.merge(tot);
 
     let mut cov = stats.coverage(
